@@ -62,6 +62,10 @@ func (ex *Exec) callValue(fr *Frame, fnv Val, args []Val, site ssa.Instruction, 
 	}
 	// dynamic call of an opaque function value
 	if fnv.K == VTerm {
+		if sp, ok := vc.funcSpecs[fnv.T.S]; ok {
+			ex.applyContract(fr, sp, nil, common.Signature(), args, site, st, k, "spec "+sp.Name)
+			return
+		}
 		if spec := ex.closureSpecFor(fr, common.Value); spec != nil {
 			ex.applyContract(fr, spec, nil, common.Signature(), args, site, st, k, "spec "+spec.Name)
 			return
@@ -75,26 +79,32 @@ func (ex *Exec) callValue(fr *Frame, fnv Val, args []Val, site ssa.Instruction, 
 // closure spec through `requires implements(param, Spec)` in the contract.
 func (ex *Exec) closureSpecFor(fr *Frame, v ssa.Value) *FuncContract {
 	vc := ex.vc
-	if fr.contract == nil {
-		return nil
-	}
 	name := ""
 	switch x := v.(type) {
 	case *ssa.Parameter:
 		name = x.Name()
 	case *ssa.UnOp:
-		if a, ok := x.X.(*ssa.Alloc); ok {
+		switch a := x.X.(type) {
+		case *ssa.Alloc:
 			name = a.Comment
+		case *ssa.FreeVar:
+			name = a.Name()
 		}
 	}
 	if name == "" {
 		return nil
 	}
-	for _, r := range fr.contract.Requires {
-		if c, ok := r.Expr.(ECall); ok && c.Fun == "implements" && len(c.Args) == 2 {
-			if id, ok := c.Args[0].(EIdent); ok && id.Name == name {
-				if sn, ok := c.Args[1].(EIdent); ok {
-					return vc.prog.contracts.Specs[sn.Name]
+	// the declaring contract is that of this function or of an enclosing one (captured parameter)
+	for f := fr; f != nil; f = f.caller {
+		if f.contract == nil {
+			continue
+		}
+		for _, r := range f.contract.Requires {
+			if c, ok := r.Expr.(ECall); ok && c.Fun == "implements" && len(c.Args) == 2 {
+				if id, ok := c.Args[0].(EIdent); ok && id.Name == name {
+					if sn, ok := c.Args[1].(EIdent); ok {
+						return vc.prog.contracts.Specs[sn.Name]
+					}
 				}
 			}
 		}
@@ -152,6 +162,29 @@ func (ex *Exec) inline(fr *Frame, callee *ssa.Function, binds []Val, args []Val,
 	nf.params = args
 	nf.free = binds
 	nf.contract = c
+	nf.oldState = st.clone()
+	if c != nil && (len(c.Requires) > 0 || len(c.Updates) > 0) {
+		ex.vc.usedCon[c.Name] = true
+	}
+	if c != nil && len(c.Requires) > 0 {
+		env := ex.newEnv(st, nil, callee.Pkg.Pkg, nf)
+		ex.bindParams(env, nf)
+		for _, r := range c.Requires {
+			if isImplements(r.Expr) {
+				continue
+			}
+			env.goal = true
+			g := env.Bool(r.Expr)
+			env.goal = false
+			if len(env.errs) > 0 {
+				ex.vc.fatalf("contract of %s, requires %q: %s", c.Name, r.Text, strings.Join(env.errs, "; "))
+				return
+			}
+			ex.vc.curProps = r.Props
+			ex.obligationFull(fr, st, "call-requires", fmt.Sprintf("%s requires %s", shortName(c.Name), r.Text), g, false, fmt.Sprintf("%s.%d", shortName(c.Name), r.Ordinal), env.ground)
+			ex.vc.curProps = nil
+		}
+	}
 	if len(callee.Blocks) == 0 {
 		k(st, Val{}, false)
 		return
@@ -175,6 +208,12 @@ func (ex *Exec) inline(fr *Frame, callee *ssa.Function, binds []Val, args []Val,
 			res = rets[0]
 		default:
 			res = Val{K: VTuple, Tup: rets}
+		}
+		if c != nil && len(c.Updates) > 0 {
+			env := ex.newEnv(st2, nf.oldState, callee.Pkg.Pkg, nf)
+			ex.bindParams(env, nf)
+			ex.bindResults(env, callee.Signature, callee, res)
+			ex.applyUpdates(st2, c, env)
 		}
 		k(st2, res, false)
 		ex.vc.curFrame = nf
@@ -434,7 +473,12 @@ func (ex *Exec) applyContract(fr *Frame, c *FuncContract, callee *ssa.Function, 
 			vc.fatalf("contract of %s, requires %q: %s", c.Name, r.Text, strings.Join(env.errs, "; "))
 			return
 		}
+		vc.curProps = r.Props
+		if len(vc.curProps) == 0 && c.Trusted {
+			vc.curProps = c.Props
+		}
 		ex.obligationFull(fr, st, "call-requires", fmt.Sprintf("%s requires %s", shortName(name), r.Text), g, false, fmt.Sprintf("%s.%d", shortName(name), r.Ordinal), env.ground)
+		vc.curProps = nil
 	}
 	pre := st.clone()
 	// frame
@@ -453,14 +497,73 @@ func (ex *Exec) applyContract(fr *Frame, c *FuncContract, callee *ssa.Function, 
 	for kk, v := range env.binds {
 		post.binds[kk] = v
 	}
+	// in-place slice parameters: the caller's slice has new contents afterwards
+	for _, ip := range c.InPlace {
+		for i, pn := range pnames {
+			if pn != ip || i >= len(args) {
+				continue
+			}
+			oldv := env.binds[ip]
+			nv := vc.fresh("inplace_"+ip, oldv.T.Sort)
+			if post.oldBinds == nil {
+				post.oldBinds = map[string]TVal{}
+			}
+			post.oldBinds[ip] = oldv
+			post.binds[ip] = TVal{T: nv, Ty: oldv.Ty}
+			if args[i].Prov != nil {
+				ex.store(st, args[i].Prov, tv(nv))
+			} else {
+				vc.fatalf("in-place callee %s applied to a slice of unknown origin at %s", c.Name, ex.where())
+			}
+		}
+	}
 	ex.bindResults(post, sig, callee, res)
 	for _, e := range c.Ensures {
+		if isImplements(e.Expr) {
+			continue
+		}
 		f := post.Bool(e.Expr)
 		if len(post.errs) > 0 {
 			vc.fatalf("contract of %s, ensures %q: %s", c.Name, e.Text, strings.Join(post.errs, "; "))
 			return
 		}
 		st.assume(f)
+	}
+	for _, e := range c.Ensures {
+		if ic, ok := e.Expr.(ECall); ok && ic.Fun == "implements" && len(ic.Args) == 2 {
+			if id, ok := ic.Args[0].(EIdent); ok {
+				if sn, ok := ic.Args[1].(EIdent); ok {
+					if tvv, ok := post.binds[id.Name]; ok {
+						if vc.funcSpecs == nil {
+							vc.funcSpecs = map[string]*FuncContract{}
+						}
+						if sp := vc.prog.contracts.Specs[sn.Name]; sp != nil {
+							vc.funcSpecs[tvv.T.S] = sp
+						} else {
+							vc.fatalf("unknown closure spec %s", sn.Name)
+						}
+					}
+				}
+			}
+		}
+	}
+	if len(c.Updates) > 0 {
+		// updates are evaluated in the pre-call ghost state
+		uenv := ex.newEnv(pre, pre, pkg, fr)
+		for kk, v := range post.binds {
+			uenv.binds[kk] = v
+		}
+		for _, u := range c.Updates {
+			v := uenv.tr(u.Expr)
+			if len(uenv.errs) > 0 {
+				vc.fatalf("ghost update of %s: %s", c.Name, strings.Join(uenv.errs, "; "))
+				return
+			}
+			st.ghost[u.Ghost] = v.T
+			if st.writes != nil {
+				st.writes.ghost[u.Ghost] = true
+			}
+		}
 	}
 	k(st, res, false)
 }
